@@ -642,10 +642,11 @@ type rtReplay struct {
 func rtRun(r *vmc.Result, scs []rtScenario, oracle rtOracle) {
 	// every execution builds a fresh Manager: short-lived garbage dominates, so collect less often
 	defer debug.SetGCPercent(debug.SetGCPercent(200))
-	var runs int64
+	var runs, rechecked int64
 	replaying := false
 	mkStep := func(sc *rtScenario) func(hist []string) (string, []string) {
 		var level sync.Map // state hash -> length of the shortest history reaching it
+		var rechecks int64
 		return func(hist []string) (key string, enabled []string) {
 			atomic.AddInt64(&runs, 1)
 			defer func() {
@@ -666,6 +667,18 @@ func rtRun(r *vmc.Result, scs []rtScenario, oracle rtOracle) {
 			after := w.dump()
 			h := sha256.Sum256(after.canon())
 			key = hex.EncodeToString(h[:16])
+			if atomic.AddInt64(&rechecks, 1) <= 64 {
+				// ownership of nondeterminism, proven: the first 64 executions of every scenario are
+				// repeated on another fresh Manager and must reach the same canonical state
+				w2 := rtNew()
+				for _, ev := range hist {
+					w2.apply(ev)
+				}
+				if string(w2.dump().canon()) != string(after.canon()) {
+					r.HarnessError("nondeterminism not owned: scenario %s history %v reaches two different states", sc.Name, hist)
+				}
+				atomic.AddInt64(&rechecked, 1)
+			}
 			lvl, loaded := level.LoadOrStore(key, len(hist))
 			fresh := replaying || !loaded || lvl.(int) == len(hist)
 			oracle(sc, hist, w, before, after, last, fresh)
@@ -703,6 +716,7 @@ func rtRun(r *vmc.Result, scs []rtScenario, oracle rtOracle) {
 			"depth_reached": st.Depth, "states": st.States, "transitions": st.Transitions, "fixpoint": st.Complete})
 	}
 	r.Add("traces_validated_against_impl", runs)
+	r.Add("determinism_rechecks", rechecked)
 	r.Info["scenarios"] = info
 }
 
